@@ -124,6 +124,28 @@ def parseSnap (t : String) : Option Obs :=
     | _, _ => none
   | _ => none
 
+def snapClosed (t : String) : Bool := (t.splitOn ";").any (· == "c1")
+
+/-- the step predicate of one op between the snapshot before it and the snapshot after it (Spec: who may be affected) -/
+def stepSpecOf (h : HOp) (before after : Obs) (closedAfter : Bool) : Bool :=
+  match h with
+  | .fr _ obj a _ =>
+    if closedAfter then true else   -- a frame that closed the connection: every stream is reset by the close event
+    match (if obj then before.strs[a]?.map (·.id) else some (a : Int)) with
+    | some id => frameStepSpec id before after
+    | none => quietStepSpec before after
+  | .x w => resetStepSpec (some w) before after
+  | .c | .p => resetStepSpec none before after
+  | _ => quietStepSpec before after
+
+def stepsOk (before : Obs) : List HOp → List String → Bool
+  | [], _ => true
+  | _ :: _, [] => true    -- the script was cut (connection closed): the remaining ops were not run
+  | h :: hs, t :: ts =>
+    match parseSnap t with
+    | none => false
+    | some after => stepSpecOf h before after (snapClosed t) && stepsOk after hs ts
+
 /-- the property predicate on the implementation's output line: every snapshot satisfies `obsSpec`, the ids are well
 formed, the peer saw every request under the id its stream object is registered with, nothing panicked -/
 def specLine (firstOdd : Bool) (impl : List String) : Bool :=
@@ -149,7 +171,7 @@ def run (first ops : String) (impl : List String) : String :=
     let wire := s!"wire{",".intercalate (fin.wire.map toString)};rst{",".intercalate ((MosnVerif.Model.StreamTable.natSort fin.rst).map toString)};mis"
     let modelToks := snaps ++ [wire]
     let agree := impl == modelToks
-    let spec := impl.length == hops.length + 1 && specLine (f % 2 == 1) impl
+    let spec := impl.length == hops.length + 1 && specLine (f % 2 == 1) impl && stepsOk { tbl := [], strs := [] } hops impl.dropLast
     s!"{if agree then "A" else "D"} {if spec then "S" else "V"} {joinWith " " modelToks}"
   | _, _ => "E E bad-case"
 
